@@ -73,6 +73,21 @@ class Ref:
             if m != self.c[s]: self.c[s] = m; changed = True
         return 'mfnd %d' % changed
 
+    def extend(self):
+        """cone filtration of the vertex function, values in units of 1/D (spec, not the algorithm)"""
+        vv = {s[0]: f for s, f in self.c.items() if len(s) == 1}
+        m, M = min(vv.values()), max(vv.values())
+        D = (M - m) or 1
+        c = max(vv) + 1
+        new, dec = {}, {}
+        for s in self.c:
+            up = max(vv[v] for v in s); dn = min(vv[v] for v in s)
+            new[s] = -2 * D + ((up - m) if M != m else 0); dec[s] = '%d/0' % up
+            new[s + (c,)] = 2 * D - ((dn - m) if M != m else 0); dec[s + (c,)] = '%d/1' % dn
+        new[(c,)] = -3 * D; dec[(c,)] = 'nan/2'
+        self.c = new
+        return ['extend %d %d' % (m, M), 'decode ' + ' '.join('%s:%s' % (W(s), dec[s]) for s in sorted(dec))]
+
     # ---- queries
     def is_maximal(self, s):
         ss = set(s)
@@ -132,6 +147,7 @@ def simulate(case):
         elif o == 'clear': out.append(r.clear())
         elif o == 'assign': out.append(r.assign(a[0], a[1:]))
         elif o == 'mfnd': out.append(r.mfnd())
+        elif o == 'extend': out += r.extend()
         elif o == 'obs': out += r.obs_lines()
         elif o == 'cplx': out.append(r.cplx_line())
         elif o == 'dim': out.append('dim %d' % r.dim())
@@ -154,7 +170,15 @@ def oracle(case, impl):
     return None
 
 
-def valid(case):
+def contiguous(r):
+    vs = sorted(s[0] for s in r.c if len(s) == 1)
+    return vs == list(range(len(vs)))
+
+
+def valid_contig(case): return valid(case, True)
+
+
+def valid(case, contig=False):
     """does the history respect the documented preconditions (used when shrinking a failing history)"""
     r = Ref()
     try:
@@ -168,7 +192,7 @@ def valid(case):
                 if any(s[:i] + s[i + 1:] not in r.c for i in range(len(s))) and len(s) > 1: return False
             if o in ('assign', 'star') and tuple(sorted(a[1:] if o == 'assign' else a)) not in r.c: return False
             simulate_one(r, line)
-            if o in ('ins', 'assign') and False: pass
+            if contig and not contiguous(r): return False
         return True
     except Exception:
         return False
@@ -185,3 +209,4 @@ def simulate_one(r, line):
     elif o == 'clear': r.clear()
     elif o == 'assign': r.assign(a[0], a[1:])
     elif o == 'mfnd': r.mfnd()
+    elif o == 'extend': r.extend()
